@@ -95,6 +95,13 @@ VerdictEnc(D) ==
          ELSE IF k = 6 /\ Len(D) = 8 /\ D[5].a = "final" /\ D[8].a = "final" THEN "S" ELSE "U"
 Verdict(flow, s) == IF flow = "plain" THEN VerdictPlain(Delivered(flow, s)) ELSE VerdictEnc(Delivered(flow, s))
 \* the announced packet size, if the script announces one before the login completes
-\* an announced packet size that the login routine must have seen: announced before a DONE
-HasPacksize(s) == \E i \in 1..Len(s) : \E j \in (i + 1)..Len(s) : s[i] = P("env", "packsize") /\ s[j].t = "done"
+\* an announced packet size that the login routine must have seen: announced in a message the peer
+\* really sends (packages behind the last end-of-message are never sent) and before a DONE of it
+RECURSIVE FlatMsgs(_)
+FlatMsgs(ms) == IF ms = <<>> THEN <<>> ELSE Head(ms) \o FlatMsgs(Tail(ms))
+SentSeq(flow, s) == LET ms == Msgs(s, 1, <<>>)
+                        n == IF flow = "plain" THEN 1 ELSE 2
+                    IN FlatMsgs(SubSeq(ms, 1, IF Len(ms) < n THEN Len(ms) ELSE n))
+HasPacksize(flow, s) == LET x == SentSeq(flow, s) IN
+                        \E i \in 1..Len(x) : \E j \in (i + 1)..Len(x) : x[i] = P("env", "packsize") /\ x[j].t = "done"
 =============================================================================
